@@ -233,7 +233,11 @@ func (ctx *genericEncrypter) Encrypt(plaintext []byte) (*JsonWebEncryption, erro
 // Implementation of encrypt method producing a JWE object.
 func (ctx *genericEncrypter) EncryptWithAuthData(plaintext, aad []byte) (*JsonWebEncryption, error) {
 	obj := &JsonWebEncryption{}
-	obj.aad = aad
+	// An empty aad is serialized as "aad":"" and parsed as no aad, so it must be
+	// no aad for the authenticated data, or the object never decrypts after parsed.
+	if len(aad) > 0 {
+		obj.aad = aad
+	}
 
 	obj.protected = &rawHeader{
 		Enc: ctx.contentAlg,
